@@ -70,7 +70,14 @@ func getOr0(m map[prodKey]sdk.Int, k prodKey) sdk.Int {
 // ---------- C01 ----------
 
 type c01Oracle struct {
-	reported map[prodKey]bool
+	reported    map[prodKey]bool
+	staleStable map[uint64]bool // stable-mint vault ids reported as surviving the emergency redemption
+}
+
+// stableRedeemed: the app's emergency shutdown has moved the collateral of its stable-mint vaults to the redemption account.
+func stableRedeemed(w *World, app uint64) bool {
+	st, found := w.App.EsmKeeper.GetESMStatus(w.Ctx(), app)
+	return found && st.Status && st.StableVaultRedemptionStatus
 }
 
 func (o *c01Oracle) ID() string                  { return "c01.custody" }
@@ -84,6 +91,24 @@ func (o *c01Oracle) After(w *World, ev *Event, res Result) *Violation {
 	vk := w.App.VaultKeeper
 	vaults := vk.GetVaults(ctx)
 	stables := vk.GetStableMintVaults(ctx)
+	// (0) listed finding, terminal: under an executed emergency shutdown the auction update hook "re-opens" the vault of every
+	// vault-initiated dutch auction whose round has ended, without moving the collateral back and without closing the auction
+	// or the locked vault, and does so again in every following block. Nothing can be accounted for after that.
+	for _, a := range w.App.NewaucKeeper.GetAuctions(ctx) {
+		if !a.AuctionType || !w.esmOn(a.AppId) || !w.Hdr.Time.After(a.EndTime) {
+			continue
+		}
+		lv, ok := w.App.NewliqKeeper.GetLockedVault(ctx, a.AppId, a.LockedVaultId)
+		if !ok || lv.InitiatorType != "vault" {
+			continue
+		}
+		for _, v := range vaults {
+			if v.Owner == lv.Owner && v.AppId == a.AppId && v.ExtendedPairVaultID == lv.ExtendedPairId {
+				return &Violation{Property: "C01", OracleID: "c01.custody", Signature: "esm_reopens_vault_of_live_auction_every_block",
+					Detail: fmt.Sprintf("emergency shutdown is executed for app %d and the round of dutch auction %d (locked vault %d) has ended: auctionsV2.TriggerEsm credits vault %d of the owner with the auction's remaining collateral %s and debt %s, the coins stay in the auction account and the auction and locked vault stay live, so the same amounts are credited again in every block", a.AppId, a.AuctionId, lv.LockedVaultId, v.Id, a.CollateralToken, a.DebtToken)}
+			}
+		}
+	}
 	// (1) vault count
 	if n := vk.GetLengthOfVault(ctx); n != uint64(len(vaults)) {
 		return &Violation{Property: "C01", OracleID: "c01.count", Signature: cmpSig(int64(n), int64(len(vaults))) + ctxTag(ev),
@@ -112,6 +137,21 @@ func (o *c01Oracle) After(w *World, ev *Event, res Result) *Violation {
 	for _, v := range stables {
 		in, _, ok := w.extAssets(v.ExtendedPairVaultID)
 		if !ok {
+			continue
+		}
+		if stableRedeemed(w, v.AppId) {
+			// listed finding: the redemption set-up moves the collateral out and reduces the product totals but leaves the
+			// stable-mint vault record (amounts and id) as it was; accounted for by leaving the record out of every sum
+			if v.AmountIn.IsPositive() || v.AmountOut.IsPositive() {
+				if o.staleStable == nil {
+					o.staleStable = map[uint64]bool{}
+				}
+				if !o.staleStable[v.Id] {
+					o.staleStable[v.Id] = true
+					return &Violation{Property: "C01", OracleID: "c01.custody", Signature: "stable_mint_vault_record_survives_emergency_redemption", Continue: true,
+						Detail: fmt.Sprintf("after the emergency shutdown of app %d moved the collateral of stable-mint vault %d (product %d) to the redemption account and took it off the product totals, the vault record still shows collateral %s and principal %s", v.AppId, v.Id, v.ExtendedPairVaultID, v.AmountIn, v.AmountOut)}
+				}
+			}
 			continue
 		}
 		if cur, ok := collSum[in.Denom]; ok {
@@ -151,6 +191,12 @@ func (o *c01Oracle) After(w *World, ev *Event, res Result) *Violation {
 	}
 	if len(vaults) > 0 {
 		w.Stats.Probe("c01.checked_with_open_vaults")
+	}
+	for _, st := range w.App.EsmKeeper.GetAllESMStatus(ctx) {
+		if st.Status && st.VaultRedemptionStatus {
+			w.Stats.Probe("c01.checked_after_emergency_redemption")
+			break
+		}
 	}
 	// (3) per-product published totals
 	locked := w.lockedVaults()
@@ -255,7 +301,7 @@ func (w *World) totalPrincipal(debtDenom string) (sdk.Int, bool) {
 	}
 	for _, v := range w.App.VaultKeeper.GetStableMintVaults(ctx) {
 		_, out, ok := w.extAssets(v.ExtendedPairVaultID)
-		if ok && out.Denom == debtDenom {
+		if ok && out.Denom == debtDenom && !stableRedeemed(w, v.AppId) { // after the redemption set-up the debt is registered with the esm module
 			tot = tot.Add(v.AmountOut)
 		}
 	}
@@ -410,13 +456,23 @@ func (o *c02Oracle) After(w *World, ev *Event, res Result) *Violation {
 }
 
 // esmRegisteredDebt: debt registered for emergency redemption (filled by the esm scenario code).
-var esmDebtProvider func(w *World, denom string) sdk.Int
 
+// esmRegisteredDebt: debt of closed vaults registered for emergency redemption (per app and debt asset).
 func esmRegisteredDebt(w *World, denom string) sdk.Int {
-	if esmDebtProvider != nil {
-		return esmDebtProvider(w, denom)
+	ctx := w.Ctx()
+	tot := sdk.ZeroInt()
+	apps, _ := w.App.AssetKeeper.GetApps(ctx)
+	for _, a := range apps {
+		for _, x := range w.App.EsmKeeper.GetAllAssetToAmount(ctx, a.Id) {
+			if x.IsCollateral {
+				continue
+			}
+			if as, ok := w.App.AssetKeeper.GetAsset(ctx, x.AssetID); ok && as.Denom == denom {
+				tot = tot.Add(x.Amount)
+			}
+		}
 	}
-	return sdk.ZeroInt()
+	return tot
 }
 
 func floorMulDec(x sdk.Int, d sdk.Dec) sdk.Int {
